@@ -590,7 +590,9 @@ fn check_point(cx: &mut Ctx, s: &dyn DynSampler, cached_spec: Option<f64>, ri: u
         let want = cs * (umax / u_un).powf(half_d) * ((fmax / umax) / v_un).powf(line.dod);
         if line.generic {
             cx.sm.count("gauge_checked");
-            if !close(o.jacobian, want, 1e-11 * kappa * cond.max(1.0) + 1e-10) {
+            // (re-weighted lines: the code's J carries the rounding of its own omegas, up to 1e-10 per level by construction)
+            let jslack = if line.g.wf.is_some() { 1e-8 } else { 0.0 };
+            if !close(o.jacobian, want, 1e-11 * kappa * cond.max(1.0) + 1e-10 + jslack) {
                 cx.viol("C11", format!("jacobian {} differs from I_tr Gamma(dod)/prod Gamma(w) pi^(DL/2) (U_tr/U)^(D/2) (V_tr/V)^dod = {} at the unrescaled parameters", o.jacobian, want), ri, x, json!({"kappa": kappa, "cond": cond}));
             }
         }
